@@ -156,7 +156,7 @@ static std::vector<Violation> case_c14(const Plan& p, CaseCtx& cx)
 static Plan gen_c16(uint64_t seed, int64_t index, bool thorough)
 {
     Rng rng(hash_seed(seed, "C16", index));
-    std::vector<std::string> pk = keys_for({ "G1", "G2", "G3", "G4", "G5", "G6", "G7", "G8", "G9", "G10", "G11", "T1" });
+    std::vector<std::string> pk = keys_for({ "G1", "G2", "G3", "G4", "G5", "G6", "G7", "G8", "G9", "G10", "G11", "G12", "T1" });
     std::string key = rng.pick(pk);
     const ref::Model* m = model_for(grammar_of(key));
     OpShape sh;
@@ -372,6 +372,31 @@ static std::vector<Violation> case_c16(const Plan& p, CaseCtx& cx)
                 }
                 if (cx.st) cx.st->add("trace_actions_checked_against_model", int64_t(got.size()));
             }
+        }
+    }
+
+    // (b') the stream object itself must not carry anything over: a caller's long-lived stream used for a verbose call
+    // and then for a quiet one (and the other way round) shows exactly the texts the fresh streams showed
+    {
+        for (int order = 0; order < 2; ++order)
+        {
+            Plan d = p;
+            d.share_streams = true;
+            PlanOp o1 = p.tasks[0].ops[0], o2 = p.tasks[0].ops[0];
+            o1.stream = STR_SIM; o2.stream = STR_SIM; o1.stream_fail_after = -1; o2.stream_fail_after = -1;
+            o1.verbose = (order == 0); o2.verbose = (order != 0);
+            d.tasks[0].ops.clear(); d.tasks[0].ops.push_back(o1); d.tasks[0].ops.push_back(o2);
+            RunResult r2 = exec_plan(d, kFlags); account(cx, d, r2, false);
+            const std::string& second = r2.tasks[0][1].rec.wrote;
+            const std::string& expect = (order == 0) ? quiet : loud;
+            if (second != expect || !(observe(r2.tasks[0][1]) == A))
+            {
+                vs.push_back(make_violation("C16", "stream_object_carries_state_between_calls",
+                    std::string("after a ") + (order == 0 ? "verbose" : "quiet") + " call on the same std::ostream object the " + (order == 0 ? "quiet" : "verbose") +
+                    " call wrote '" + printable(second, 160) + "' instead of '" + printable(expect, 160) + "'; " + brief, p));
+                return vs;
+            }
+            if (cx.st) cx.st->add("same_stream_object_reused_checked");
         }
     }
 
